@@ -13,9 +13,11 @@ Variants == <<"sqlalchemy", "sqlalchemy_table", "sqlalchemy_hybrid">>
 Styles == {"rest", "google", "numpydoc"}
 SqlTyps == {"int", "float", "str", "bool", "dict", "Opt_int", "Opt_float", "Opt_str", "Opt_bool", "Opt_dict", "Lit"}
 \* Optional[..] without non-None default
-SqlParams == {p \in [typ : SqlTyps, def : Defs \ {"code", "str_empty"}, doc : {"plain", "pk", "fk"}] :
-                 Compat(p.typ, p.def) /\ (IsOpt(p.typ) => p.def \in {"absent", "None"})}
+\* nm = "cand": the column's NAME makes it a primary-key candidate (`*_name`, `*_id`, `id_*`), which EnsurePK may promote
+SqlParams == {p \in [typ : SqlTyps, def : Defs \ {"code", "str_empty"}, doc : {"plain", "pk", "fk"}, nm : {"plain", "cand"}] :
+                 Compat(p.typ, p.def) /\ (IsOpt(p.typ) => p.def \in {"absent", "None"}) /\ (p.nm = "cand" => p.doc = "plain")}
 SmallParams == {p \in SqlParams : p.typ \in {"int", "Opt_str", "Lit"} /\ p.def \in {"absent", "None", "int_pos"}}
+NoRet0 == 0
 AtMostOnePK(ps) == Cardinality({k \in 1..Len(ps) : ps[k].doc = "pk"}) <= 1
 ParamSeqs == {ps \in {<<p>> : p \in SqlParams} \cup (IF MaxParams >= 2 THEN {<<p, r>> : p \in SqlParams, r \in SmallParams} ELSE {}) :
                  AtMostOnePK(ps)}
@@ -23,23 +25,30 @@ NoRet == [typ |-> "none", def |-> "absent", doc |-> "absent"]
 
 \* ---- the artefact: one Column per parameter --------------------------------------------------------------------
 HasPK(ps) == \E k \in 1..Len(ps) : ps[k].doc = "pk"
+Cands(ps) == {k \in 1..Len(ps) : ps[k].nm = "cand"}
+\* ensure_has_primary_key: a [PK] marker wins; else, unless force_pk_id, the single name-based candidate is promoted;
+\* else a synthetic integer `id` column is appended
+Promote(ps, force) == IF ~HasPK(ps) /\ ~force /\ Cardinality(Cands(ps)) = 1
+                      THEN [k \in 1..Len(ps) |-> IF k \in Cands(ps) THEN [ps[k] EXCEPT !.doc = "pk"] ELSE ps[k]]
+                      ELSE ps
 ColType(t) == CASE Base(t) = "int" -> "Integer" [] Base(t) = "float" -> "Float" [] Base(t) = "str" -> "String"
                 [] Base(t) = "bool" -> "Boolean" [] Base(t) = "dict" -> "JSON" [] Base(t) = "Lit" -> "Enum"
-EmitCol(p) == [coltype |-> ColType(p.typ), pk |-> p.doc = "pk", fk |-> p.doc = "fk",
+EmitCol(p) == [coltype |-> ColType(p.typ), pk |-> p.doc = "pk", fk |-> p.doc = "fk", nm |-> p.nm,
                nullable |-> IsOpt(p.typ) \/ p.typ = "dict", default |-> p.def, comment |-> p.doc]
-SyntheticId == [coltype |-> "Integer", pk |-> TRUE, fk |-> FALSE, nullable |-> FALSE, default |-> "absent", comment |-> "synthetic"]
-Emit(ps) == [k \in 1..Len(ps) |-> EmitCol(ps[k])] \o (IF HasPK(ps) THEN <<>> ELSE <<SyntheticId>>)
+SyntheticId == [coltype |-> "Integer", pk |-> TRUE, fk |-> FALSE, nm |-> "plain", nullable |-> FALSE, default |-> "absent", comment |-> "synthetic"]
+Emit(ps0, force) == LET ps == Promote(ps0, force) IN
+                     [k \in 1..Len(ps) |-> EmitCol(ps[k])] \o (IF HasPK(ps) THEN <<>> ELSE <<SyntheticId>>)
 OnePK(cols) == Cardinality({k \in 1..Len(cols) : cols[k].pk}) = 1
 
 \* ---- parse: Column -> entry ---------------------------------------------------------------------------------------
 TypeBack(c, orig) == LET b == CASE c.coltype = "Integer" -> "int" [] c.coltype = "Float" -> "float" [] c.coltype = "String" -> "str"
                                   [] c.coltype = "Boolean" -> "bool" [] c.coltype = "JSON" -> "dict" [] c.coltype = "Enum" -> "Lit"
                      IN IF c.nullable THEN (IF b = "Lit" THEN "Opt_Lit" ELSE OptOf(b)) ELSE b
-ParseCol(c, orig) == [present |-> TRUE, wild |-> FALSE, name |-> IF c.comment = "synthetic" THEN "id" ELSE "",
+ParseCol(c, orig) == [present |-> TRUE, wild |-> FALSE, name |-> IF c.comment = "synthetic" THEN "id" ELSE "", nm |-> c.nm,
                       typs |-> {TypeBack(c, orig)}, def |-> c.default,
                       doc |-> IF c.comment = "synthetic" THEN "pkonly" ELSE c.comment]
-Gone == [present |-> FALSE, wild |-> FALSE, name |-> "", typs |-> {}, def |-> "absent", doc |-> "absent"]
-Norm(cfg, i) == LET cols == Emit(i.params) IN
+Gone == [present |-> FALSE, wild |-> FALSE, name |-> "", nm |-> "plain", typs |-> {}, def |-> "absent", doc |-> "absent"]
+Norm(cfg, i) == LET cols == Emit(i.params, cfg.force_pk) IN
                 [raises |-> "no", wild |-> FALSE, doc |-> "any",
                  params |-> [k \in 1..Len(cols) |-> ParseCol(cols[k], IF k <= Len(i.params) THEN i.params[k] ELSE NoRet)],
                  ret |-> Gone]
@@ -60,7 +69,7 @@ CfgSeq == SetToSeq(Cfgs)
 Init == /\ cfg \in {CfgSeq[k] : k \in {j \in 1..Len(CfgSeq) : j % NShards = Shard}}
         /\ \E ps \in ParamSeqs : i = [doc |-> "one", params |-> ps, ret |-> NoRet]
         /\ pc = "emit" /\ out = "none" /\ fired = {} /\ cols = <<>>
-DoEmit == pc = "emit" /\ cols' = Emit(i.params) /\ pc' = "parse" /\ UNCHANGED <<cfg, i, out, fired>>
+DoEmit == pc = "emit" /\ cols' = Emit(i.params, cfg.force_pk) /\ pc' = "parse" /\ UNCHANGED <<cfg, i, out, fired>>
 DoParse == /\ pc = "parse"
            /\ LET ab == AsBuilt(Enabled, cfg, i) IN out' = ab.out /\ fired' = ab.fired
            /\ pc' = "done" /\ UNCHANGED <<cfg, i, cols>>
@@ -73,7 +82,7 @@ RoundTripOrDeviation == pc = "done" => (out = Norm(cfg, i) \/ fired # {})
 \* Agree: Norm does not depend on the variant
 Agree == pc = "done" => \A v \in {Variants[k] : k \in 1..3} : Norm([cfg EXCEPT !.fmt = v], i) = Norm(cfg, i)
 
-JP(e) == [present |-> e.present, wild |-> e.wild, name |-> e.name, typs |-> SetToSeq(e.typs), def |-> e.def, doc |-> e.doc]
+JP(e) == [present |-> e.present, wild |-> e.wild, name |-> e.name, nm |-> e.nm, typs |-> SetToSeq(e.typs), def |-> e.def, doc |-> e.doc]
 JI(x) == [raises |-> x.raises, wild |-> x.wild, doc |-> x.doc, params |-> [k \in 1..Len(x.params) |-> JP(x.params[k])], ret |-> JP(x.ret)]
 Dump == pc = "done" => PrintT(ToJson([cfg |-> cfg, i |-> i, exp |-> JI(Norm(cfg, i)), asb |-> JI(out), devs |-> SetToSeq(fired)]))
 =====================================================================================
